@@ -146,6 +146,12 @@ Theorem reaction_routes_agree_R (t : tree X) :
   map (fun r => (fst (fst r), snd r)) (flatten (react_fb KR AR nd dy t))
   = map (fun r => (fst r, snd (snd r))) (flatten (react_art KR AR nd dy t)).
 Proof. eapply reaction_routes_agree; laws. Qed.
+(** uniqueness: mobility accelerations with zero inverse-dynamics residual are exactly what forward dynamics returns *)
+Theorem fd_unique_R (ud : X -> list R) (t : tree X) :
+  (forall y, In y (flatten (abi_pass KR AR nd t)) -> node_ok_l KR nd dy ud y) ->
+  Forall (fun r => snd r = map (fun _ => 0) (n_H (nd (fst (fst (fst r)))))) (flatten (rnea KR AR nd dy ud t)) ->
+  Forall (fun w : WTR => w_ud w = ud (w_x w)) (flatten (fd KR AR nd dy t)).
+Proof. eapply fd_unique; laws. Qed.
 End C02R.
 
 (** ** the per-body hypothesis for small mobility spaces *)
